@@ -46,6 +46,10 @@ type Task struct {
 	Steps    int
 	Harness  bool
 	ParkedAt time.Time // simulated time at which the task reached its current yield point
+	// RunnableSince: simulated time since which the task has been runnable without blocking in between (a task
+	// that goes from scheduling point to scheduling point within one driver step stays "the same waiting work")
+	RunnableSince time.Time
+	releasedStep  int64
 }
 
 func (t *Task) String() string { return fmt.Sprintf("T%d:%s@%s", t.ID, t.Role, t.Site) }
@@ -145,6 +149,10 @@ func (rt *Runtime) park(t *Task, site string) {
 	t.Site = site
 	t.State = StParked
 	t.ParkedAt = time.Now()
+	if t.releasedStep != rt.Step+1 || t.RunnableSince.IsZero() {
+		// not a continuation of the stretch the driver released in this step: the task was blocked (or new)
+		t.RunnableSince = t.ParkedAt
+	}
 	rt.parked = append(rt.parked, t)
 	rt.mu.Unlock()
 	<-t.resume
@@ -396,6 +404,7 @@ func (rt *Runtime) Release(t *Task) {
 	}
 	t.State = StRunning
 	t.Steps++
+	t.releasedStep = rt.Step + 1
 	rt.mu.Unlock()
 	t.resume <- struct{}{}
 }
